@@ -15,6 +15,10 @@ STRIP_IDENT = {
 }
 
 
+UNWRAP_PAYLOAD = {("Option", "unwrap"): ("v:Some", "f:0"), ("Option", "expect"): ("v:Some", "f:0"),
+                  ("Result", "unwrap"): ("v:Ok", "f:0"), ("Result", "expect"): ("v:Ok", "f:0")}
+
+
 def tproj(t, path):
     """the sub-value of tree t at projection path"""
     path = tuple(path)
@@ -40,6 +44,48 @@ def tproj(t, path):
     if k == "proj":
         return ("proj", t[1], tuple(t[2]) + path)
     return ("proj", t, path)
+
+
+def _const_int(t):
+    if t[0] == "const":
+        try:
+            return int(t[1])
+        except ValueError:
+            return None
+    if t[0] == "un" and t[1] == "Not" and t[2][0] == "const":
+        try:
+            return (1 << 64) - 1 - int(t[2][1])
+        except ValueError:
+            return None
+    return None
+
+
+def _pow2(n):
+    return n >= 2 and (n & (n - 1)) == 0
+
+
+def canon_bits(node):
+    """unsigned bit tricks in their arithmetic spelling, so that `x & 7` and `x % 8`, `x & !7`,
+    `x / 8 * 8` and `x - x % 8` are one expression to every rule:
+      x & (2^k - 1)  (k >= 2)  ->  x % 2^k
+      x & !(2^k - 1)           ->  x - x % 2^k
+      (x / c) * c              ->  x - x % c"""
+    op, a, b = node[1], node[2], node[3]
+    if op == "BitAnd":
+        for (x, c) in ((a, b), (b, a)):
+            ci = _const_int(c)
+            if ci is None:
+                continue
+            if ci >= 3 and _pow2(ci + 1):
+                return ("bin", "Rem", x, ("const", str(ci + 1)))
+            inv = (1 << 64) - ci
+            if ci >= (1 << 63) and _pow2(inv):
+                return ("bin", "Sub", x, ("bin", "Rem", x, ("const", str(inv))))
+    if op == "Mul":
+        for (x, c) in ((a, b), (b, a)):
+            if c[0] == "const" and x[0] == "bin" and x[1] == "Div" and x[3] == c:
+                return ("bin", "Sub", x[2], ("bin", "Rem", x[2], c))
+    return node
 
 
 def strip_ovf(op):
@@ -100,6 +146,12 @@ def tree(ctx, origin, depth=0, resolve_places=True):
         if tag in STRIP_IDENT and args:
             # value-preserving wrapper: the result denotes the same abstract value as its argument
             return tproj(args[0], path)
+        if tag in (("Result", "err"), ("Result", "ok")) and args and tuple(path[:2]) == ("v:Some", "f:0"):
+            # res.err() is Some(e) exactly when res is Err(e): its payload is the Err payload
+            return tproj(args[0], (("v:Err" if tag[1] == "err" else "v:Ok"), "f:0") + tuple(path[2:]))
+        if tag in UNWRAP_PAYLOAD and args:
+            # the value of opt.unwrap() / res.expect(..) is the Some / Ok payload (it panics otherwise)
+            return tproj(args[0], UNWRAP_PAYLOAD[tag] + tuple(path))
         if tag == ("Try", "branch") and args and path[:2] == ("v:Continue", "f:0"):
             aty = ""
             a0 = t["args"][0]
@@ -114,7 +166,7 @@ def tree(ctx, origin, depth=0, resolve_places=True):
             op = rv["op"]
             a = trees(ctx, ctx.org.operand(rv["a"]), depth + 1)
             b = trees(ctx, ctx.org.operand(rv["b"]), depth + 1)
-            node = ("bin", strip_ovf(op), a, b)
+            node = canon_bits(("bin", strip_ovf(op), a, b))
             if op.endswith("WithOverflow"):
                 if path == ("f:1",):
                     return ("ovf", node)
@@ -254,6 +306,107 @@ def edge_dominates(body, src, dst, target):
     return True
 
 
+FLAG_META = {}  # (body key, guard block) -> {"kills": set of blocks}
+
+
+def _chase_flag(ctx, op, parity=0, depth=0):
+    """follow a switch discriminant through single-definition temporaries (copies, `!x`) to a
+    bool local with several plain definitions: (local, parity of negations) or None"""
+    body = ctx.body
+    if op["k"] not in ("copy", "move") or op["place"]["p"] or depth > 6:
+        return None
+    l = op["place"]["l"]
+    defs = [d_ for d_ in ctx.org.defs.get(l, ()) if d_[0] == () and not d_[3]]
+    if not defs:
+        return None
+    if len(defs) == 1:
+        if defs[0][1] != "stmt":
+            return None
+        rv = ctx.org.stmt(*defs[0][2])["rv"]
+        if rv["k"] == "use":
+            return _chase_flag(ctx, rv["op"], parity, depth + 1)
+        if rv["k"] == "unop" and rv.get("op") == "Not":
+            return _chase_flag(ctx, rv["a"], parity + 1, depth + 1)
+        return None
+    if body.locals[l]["ty"]["s"] != "bool" or any(d_[1] != "stmt" for d_ in defs):
+        return None
+    return (l, parity % 2, defs)
+
+
+def _flag_guard(ctx, d, t, hits, arms):
+    """A cached flag `let mut f = e(); loop { if f {..} else {.. x.push(); f = true; } }`: on the
+    branch where the flag has the value that no constant assignment gives it, the flag still
+    equals e() as evaluated at its last (re)computation -- provided the state e() reads was not
+    written since on a path that keeps the flag at that value.  Returns the collapsed condition
+    tree (and records where such paths end) or None."""
+    body = ctx.body
+    ch = _chase_flag(ctx, t["discr"])
+    if ch is None:
+        return None
+    (l, parity, defs) = ch
+    if hits:
+        dval = hits[0]
+    else:
+        dval = "other"
+    if dval not in ("0", "1"):
+        if not hits and len(arms) == 1 and arms[0][0] in ("0", "1"):
+            dval = "1" if arms[0][0] == "0" else "0"
+        else:
+            return None
+    flag_truth = (dval == "1") != bool(parity)   # value of the flag local on this edge
+    consts = []
+    exprs = []
+    for d_ in defs:
+        bi, si = d_[2]
+        rv = ctx.org.stmt(bi, si)["rv"]
+        if rv["k"] == "use" and rv["op"]["k"] == "const" and rv["op"].get("int") in ("0", "1"):
+            consts.append((bi, rv["op"]["int"] == "1"))
+        else:
+            exprs.append(tree(ctx, (("expr", bi, si), ())) if rv["k"] not in ("use", "cast") else
+                         trees(ctx, ctx.org.rvalue(rv, bi, si)))
+    if not exprs or not consts or any(v == flag_truth for (_, v) in consts):
+        return None
+    exprs = [collapse_phi(ctx, e) for e in exprs]
+    if any(nobb(e) != nobb(exprs[0]) for e in exprs[1:]):
+        return None
+    bbs = set()
+    for e in exprs:
+        for nd in _calls_of(e):
+            bbs.add(nd[4])
+    for nd in _calls_of(exprs[0]):
+        EVAL_MERGE.setdefault((body.key, nd[4]), set()).update(bbs)
+    kills = {bi for (bi, _) in consts}
+    # the other arm of every branch on the same flag: the flag has the opposite value there and
+    # only a re-computation (an evaluation point) or nothing brings it back
+    for s_ in body.live_blocks():
+        st = body.term(s_)
+        if st["k"] != "switch":
+            continue
+        ch2 = _chase_flag(ctx, st["discr"])
+        if ch2 is None or ch2[0] != l:
+            continue
+        for (v, tgt) in list(st["arms"]) + [("other", st["otherwise"])]:
+            if v == "other":
+                vs = [a[0] for a in st["arms"]]
+                if vs == ["0"]:
+                    v = "1"
+                elif vs == ["1"]:
+                    v = "0"
+                else:
+                    continue
+            if v not in ("0", "1") or tgt is None:
+                continue
+            truth2 = (v == "1") != bool(ch2[1])
+            if truth2 != flag_truth and all(p_ == s_ for p_ in body.live_blocks() if tgt in body.succs(p_)):
+                kills.add(tgt)
+    FLAG_META[(body.key, d)] = {"kills": kills}
+    # present the condition so that `value` (of the discriminant) keeps its meaning
+    out = exprs[0]
+    if parity:
+        out = ("un", "Not", out)
+    return out
+
+
 def guards(ctx, bb):
     """dominating branch facts for block bb: list of (cond_tree, value) meaning the switch
     discriminant `cond_tree` had `value` ('0', '1', ... or ('not', [values]))"""
@@ -271,6 +424,9 @@ def guards(ctx, bb):
                     hits.append(val)
             cond = collapse_phi(ctx, operand_tree(ctx, t["discr"]))
             dty = t.get("discr_ty", "bool")
+            fl = _flag_guard(ctx, d, t, hits, arms) if dty == "bool" else None
+            if fl is not None:
+                cond = fl
             if hits:
                 for v in hits[:1]:
                     out.append((cond, v, d, dty))
@@ -543,12 +699,13 @@ def fact_still_holds(ctx, f, bb):
         if _tree_roots(nd[2], set()) & places:
             evals.add(nd[4])
             evals |= EVAL_MERGE.get((ctx.body.key, nd[4]), set())
+    kills = FLAG_META.get((ctx.body.key, d), {}).get("kills", set())
     if not evals:
-        return not mutated_between(ctx, d, bb, places)
+        return not mutated_between(ctx, d, bb, places, stops=kills)
     for e in evals:
         if e == bb:
             continue
-        if mutated_between(ctx, e, bb, places, stops=evals - {e}, include_start=False):
+        if mutated_between(ctx, e, bb, places, stops=(evals - {e}) | kills, include_start=False):
             return False
     return True
 
